@@ -27,6 +27,37 @@ PyObj = _PO.create()
 
 typeof = z3.Function("typeof", z3.IntSort(), z3.IntSort())     # ref -> class id
 
+# Strings stored in sequences / used as dict keys are represented by integer ids through a
+# bijection sid/sof (z3 5.1's solver for sequences of strings is unsound: it answered 'unsat'
+# for  (forall s x. contains(s,[x]) -> s[indexof(s,[x])] = x)  /\  contains(ks,[k])  ).
+sid = z3.Function("sid", z3.StringSort(), z3.IntSort())
+sof = z3.Function("sof", z3.IntSort(), z3.StringSort())
+
+
+def string_id_axioms():
+    s = z3.String("sid_s")
+    i = z3.Int("sid_i")
+    return [z3.ForAll([s], sof(sid(s)) == s, patterns=[sid(s)]),
+            z3.ForAll([i], sid(sof(i)) == i, patterns=[sof(i)])]
+
+
+def enc(sv):
+    """z3 term under which an element is stored in a sequence / used as a map key."""
+    if sv.ty.kind == "str":
+        return sid(sv.t)
+    return sv.t
+
+
+def dec(ty, term):
+    """inverse of enc: the element value of type ty for a stored term."""
+    if ty.kind == "str":
+        return sof(term)
+    return term
+
+
+def elem_sort(ty):
+    return z3.IntSort() if ty.kind == "str" else sort_of(ty)
+
 _fresh = [0]
 
 
@@ -116,8 +147,8 @@ def map_sort(ty):
     if k not in _map_sorts:
         name = "Map%d" % len(_map_sorts)
         dt = z3.Datatype(name)
-        dt.declare("mk_" + name, ("keys_" + name, z3.SeqSort(sort_of(ty.key))),
-                   ("vals_" + name, z3.ArraySort(sort_of(ty.key), sort_of(ty.elem))))
+        dt.declare("mk_" + name, ("keys_" + name, z3.SeqSort(elem_sort(ty.key))),
+                   ("vals_" + name, z3.ArraySort(elem_sort(ty.key), sort_of(ty.elem))))
         _map_sorts[k] = dt.create()
     return _map_sorts[k]
 
@@ -139,7 +170,7 @@ def sort_of(ty):
     if k in ("ref", "exc", "none"):
         return z3.IntSort()
     if k == "seq":
-        return z3.SeqSort(sort_of(ty.elem))
+        return z3.SeqSort(elem_sort(ty.elem))
     if k == "tup":
         return tuple_sort(ty)
     if k == "arr":
